@@ -443,6 +443,8 @@ type env struct {
 	wasOpen   bool   // the conn was observed open just before the current op
 	dialRes   string // outcome of the last dial op (ok / err / none / fail)
 	dialTimer bool   // the write timer in force was armed by DialAsyncTimeout (its closure carries ErrDialTimeout)
+	bailed    bool   // an op of this case gave up early (client-side error / timeout on an overloaded machine): the
+	// harness's own bookkeeping of the deadlines is incomplete from then on, nothing is claimed about renewals
 }
 
 func (e *env) us() int64 { return int64(time.Since(e.start) / time.Microsecond) }
@@ -699,13 +701,19 @@ func runCase(cr *caseRun) {
 		rdl := ""
 		if c := e.nbc(); c != nil && post.kind == "open" && ws[1] != "dial" {
 			rd, _, ok := c.VerifDeadlines()
+			ok = ok && !e.bailed
 			switch {
 			case !ok:
 				extra += " rd=na"
 			case rd.IsZero():
 				extra += " rd=none"
 			default:
-				extra += fmt.Sprintf(" rd=%d", int64(rd.Sub(e.start)/time.Microsecond))
+				// an expiry before the start of the case (setpast at t = 0) is printed as 0: the annotation is a natural number
+				v := int64(rd.Sub(e.start) / time.Microsecond)
+				if v < 0 {
+					v = 0
+				}
+				extra += fmt.Sprintf(" rd=%d", v)
 			}
 			rdl = " rdl=ok"
 			if ok && !c.VerifState().Closed {
@@ -1114,12 +1122,14 @@ func setupE2E(e *env, kind string, kaMs, wtMs, wskaMs int) (func(ws []string), f
 			// std http.Server: no nbio deadline exists until the upgrade transfers the conn
 			c, err := net.DialTimeout("tcp", addr, 2*time.Second)
 			if err != nil {
+				e.bailed = true
 				return
 			}
 			cli, br = c, bufio.NewReaderSize(c, 1<<16)
 		case "conn":
 			c, err := net.DialTimeout("tcp", addr, 2*time.Second)
 			if err != nil {
+				e.bailed = true
 				return
 			}
 			cli, br = c, bufio.NewReaderSize(c, 1<<16)
@@ -1136,6 +1146,7 @@ func setupE2E(e *env, kind string, kaMs, wtMs, wskaMs int) (func(ws []string), f
 			tr.set(0, t0+kaUs, e.us()+kaUs, e.us())
 		case "req":
 			if cli == nil {
+				e.bailed = true
 				return
 			}
 			_ = cli.SetDeadline(time.Now().Add(5 * time.Second))
@@ -1146,6 +1157,7 @@ func setupE2E(e *env, kind string, kaMs, wtMs, wskaMs int) (func(ws []string), f
 				slowUs = int64(atoi(ws[3])) * 1000
 			}
 			if _, err := fmt.Fprintf(cli, "GET /%s HTTP/1.1\r\nHost: x\r\n\r\n", path); err != nil {
+				e.bailed = true
 				return
 			}
 			if wtUs > 0 {
@@ -1156,11 +1168,13 @@ func setupE2E(e *env, kind string, kaMs, wtMs, wskaMs int) (func(ws []string), f
 			}
 			resp, err := http.ReadResponse(br, nil)
 			if err != nil {
+				e.bailed = true
 				return
 			}
 			_, err = io.Copy(io.Discard, resp.Body)
 			_ = resp.Body.Close()
 			if err != nil {
+				e.bailed = true
 				return
 			}
 			// the whole response is here: the server's queue is empty, its keep-alive deadline renewed;
@@ -1175,6 +1189,7 @@ func setupE2E(e *env, kind string, kaMs, wtMs, wskaMs int) (func(ws []string), f
 			}
 		case "wsup":
 			if cli == nil {
+				e.bailed = true
 				return
 			}
 			_ = cli.SetDeadline(time.Now().Add(5 * time.Second))
@@ -1182,6 +1197,7 @@ func setupE2E(e *env, kind string, kaMs, wtMs, wskaMs int) (func(ws []string), f
 			fmt.Fprintf(cli, "GET /ws HTTP/1.1\r\nHost: x\r\nUpgrade: websocket\r\nConnection: Upgrade\r\nSec-WebSocket-Key: %s\r\nSec-WebSocket-Version: 13\r\n\r\n", key)
 			resp, err := http.ReadResponse(br, nil)
 			if err != nil || resp.StatusCode != 101 {
+				e.bailed = true
 				return
 			}
 			h := sha1.Sum([]byte(key + "258EAFA5-E914-47DA-95CA-C5AB0DC85B11"))
@@ -1197,15 +1213,18 @@ func setupE2E(e *env, kind string, kaMs, wtMs, wskaMs int) (func(ws []string), f
 			}
 		case "msg":
 			if cli == nil {
+				e.bailed = true
 				return
 			}
 			_ = cli.SetDeadline(time.Now().Add(5 * time.Second))
 			frame := []byte{0x81, 0x85, 1, 2, 3, 4, 'h' ^ 1, 'e' ^ 2, 'l' ^ 3, 'l' ^ 4, 'o' ^ 1}
 			if _, err := cli.Write(frame); err != nil {
+				e.bailed = true
 				return
 			}
 			echo := make([]byte, 7)
 			if _, err := io.ReadFull(br, echo); err != nil {
+				e.bailed = true
 				return
 			}
 			time.Sleep(2 * time.Millisecond) // the renewal runs after the handler returned
@@ -1214,14 +1233,17 @@ func setupE2E(e *env, kind string, kaMs, wtMs, wskaMs int) (func(ws []string), f
 			}
 		case "ping":
 			if cli == nil {
+				e.bailed = true
 				return
 			}
 			_ = cli.SetDeadline(time.Now().Add(5 * time.Second))
 			if _, err := cli.Write([]byte{0x89, 0x81, 1, 2, 3, 4, 'p' ^ 1}); err != nil {
+				e.bailed = true
 				return
 			}
 			pong := make([]byte, 3)
 			if _, err := io.ReadFull(br, pong); err != nil {
+				e.bailed = true
 				return
 			}
 			time.Sleep(2 * time.Millisecond) // the renewal runs after the handler returned
@@ -1230,10 +1252,12 @@ func setupE2E(e *env, kind string, kaMs, wtMs, wskaMs int) (func(ws []string), f
 			}
 		case "pong":
 			if cli == nil {
+				e.bailed = true
 				return
 			}
 			_ = cli.SetDeadline(time.Now().Add(5 * time.Second))
 			if _, err := cli.Write([]byte{0x8a, 0x81, 1, 2, 3, 4, 'q' ^ 1}); err != nil {
+				e.bailed = true
 				return
 			}
 			// nothing comes back for an unsolicited pong: give the poller and the handler a moment
